@@ -85,6 +85,11 @@ class Ctx:
     self.max_samples = 3
     self.max_violations = 40
     self.time_zone = None
+    # where to leave what has been observed so far (the driver sets it): a worker killed by
+    # a native crash in a numerical library then loses the crashing case, not the shard
+    self.checkpoint_path = None
+    self.checkpoint_every_s = float(os.environ.get('VV_CHECKPOINT_S', 40.0))
+    self._last_checkpoint = time.time()
 
   # -- case partitioning -------------------------------------------------
   def mine(self, index: int) -> bool:
@@ -105,6 +110,20 @@ class Ctx:
     self.evaluations += n
     if nontrivial:
       self.distinct.add(stable_hash(abstraction))
+    if self.checkpoint_path and time.time() - self._last_checkpoint > self.checkpoint_every_s:
+      self.write_checkpoint()
+
+  def write_checkpoint(self):
+    self._last_checkpoint = time.time()
+    try:
+      tmp = self.checkpoint_path + '.tmp'
+      res = self.result()
+      res['partial'] = True
+      with open(tmp, 'w') as fh:
+        json.dump(res, fh)
+      os.replace(tmp, self.checkpoint_path)
+    except Exception:  # pylint: disable=broad-except
+      pass
 
   def count(self, key, n=1):
     self.counters[key] = self.counters.get(key, 0) + n
